@@ -107,6 +107,10 @@ func cmdVerify(args []string) {
 	}
 	fmt.Printf("generated %d obligations in %.1fs\n", len(all), time.Since(start).Seconds())
 	SolveAll(w, all, dir, *timeout, 1, 16)
+	groupOK := map[string]bool{}
+	for _, g := range groupObligations(all) {
+		groupOK[g.name] = g.ok
+	}
 	for _, r := range results {
 		fmt.Printf("== %s: %d obligations\n", r.Fn.Key, len(r.Obls))
 		for _, e := range r.BindErrors {
@@ -126,7 +130,10 @@ func cmdVerify(args []string) {
 		for _, o := range r.Obls {
 			ok := o.Status == "unsat"
 			if o.Cover {
-				ok = o.Status != "unsat" || strings.Contains(o.Name, "-reachable")
+				ok = o.Status != "unsat"
+				if strings.Contains(o.Name, "-reachable") {
+					ok = groupOK[o.Name]
+				}
 			}
 			if *onlyFailed && ok {
 				continue
@@ -143,7 +150,7 @@ func cmdVerify(args []string) {
 	}
 	nok := 0
 	for _, o := range all {
-		if (o.Cover && o.Status != "unsat") || (!o.Cover && o.Status == "unsat") {
+		if (o.Cover && (o.Status != "unsat" || (strings.Contains(o.Name, "-reachable") && groupOK[o.Name]))) || (!o.Cover && o.Status == "unsat") {
 			nok++
 		}
 	}
